@@ -480,6 +480,23 @@ def run_csv_cases(ctx: Ctx, cases: list, stream="csv"):
             ctx.count("csv_delimiter_" + {",": "comma", ";": "semicolon", "\t": "tab"}.get(case.get("delimiter", ","), "other"))
             if i < 2:
                 ctx.sample({"stream": stream, "case": case, "implementation": line[:300]})
+        # the reader is a function of (file, options): reading the first files again, after all the other calls of this batch
+        # (other delimiters, description rows, shapes), gives what the first reading gave
+        for i, (db, desc_row, case) in list(enumerate(cases))[:8]:
+            path = os.path.join(tmpdir, f"f{i}.csv")
+            if not os.path.exists(path) or i >= len(impls) or impls[i].startswith("export-raises"):
+                continue
+            delim = case.get("delimiter", ",")
+            try:
+                again = Databox.from_csv_file(path, description_row=desc_row, **({} if delim == "," else {"delimiter": delim}))
+                text = ";".join(show_series(k, v) for k, v in again.items()) if len(again) else "-"
+            except Exception as e:
+                text = err_kind(e)
+            ctx.evaluations += 1
+            ctx.count("csv_reread_after_other_calls")
+            if text != impls[i].partition(" # ")[2]:
+                ctx.fail("csv-reader-history", case, f"reading the same file with the same options again, after {len(cases)} other calls, "
+                                                      f"gives a different databox: {text[:120]} vs {impls[i].partition(' # ')[2][:120]}")
         ctx.compare(stream, [c for _, _, c in cases], impls, ctx.model("C19", reqs))
     finally:
         shutil.rmtree(tmpdir, ignore_errors=True)
@@ -980,7 +997,7 @@ def gen_tgt(rng, keys, nsrc):
     return ("func", rng.choice(FUNC_SPECS))
 
 
-def gen_op_box(rng, prefix: str, names=None, freqs=("Q", "M")) -> Databox:
+def gen_op_box(rng, prefix: str, names=None, freqs=("Q", "M", "I")) -> Databox:
     db = Databox()
     names = names if names is not None else rng.sample(OP_NAMES, rng.randint(2, 6))
     for n in names:
@@ -1034,7 +1051,7 @@ def gen_op(rng, db: Databox):
                         other[n] = Series(start=period(freq_letter(db[n]), BASE[freq_letter(db[n])]), values=np.array([[1.0]])) if freq_letter(db[n]) in BASE else other[n]
         out = {"op": kind, "other": describe_box(other)}
         if kind == "prepend":
-            f = rng.choice(["Q", "M"])
+            f = rng.choice(["Q", "M", "I"])
             out.update({"f": f, "stop": BASE[f] + rng.randint(-3, 4)})
         else:
             if rng.chance(0.35):
@@ -1046,7 +1063,7 @@ def gen_op(rng, db: Databox):
             out["strict"] = strict
         return out
     if kind == "clip":
-        f = rng.choice(["Q", "M", "Y"])
+        f = rng.choice(["Q", "M", "Y", "I"])
         lo = None if rng.chance(0.3) else BASE[f] + rng.randint(-4, 3)
         hi = None if rng.chance(0.3) else BASE[f] + rng.randint(-2, 6)
         return {"op": "clip", "f": f, "lo": lo, "hi": hi}
